@@ -91,7 +91,7 @@ def noclobber(ctx, report, facts, config):
                 recv = t["args"][0] if t["args"] else None
                 rty = (recv.get("place", {}).get("ty", "") if recv and "place" in recv else "")
                 cell = "AtomicRefCell<std::boxed::Box<dyn shred::world::Resource"
-                on_guard = "shred::world::FetchMut" in rty or "shred::world::data::Write" in rty
+                on_guard = "shred::world::FetchMut" in rty or "shred::world::data::Write" in rty or ("AtomicRefMut<" in rty and "shred::world::Resource" in rty)
                 on_table = cell in rty or cell in c.inst_path
                 if c.name == "deref_mut":
                     # only writing through a resource guard counts; AHashMap -> HashMap deref is no mutation
@@ -103,21 +103,22 @@ def noclobber(ctx, report, facts, config):
                 n_sites += 1
                 ok = False
                 why = ""
-                if c.name == "or_insert_with" and "hash_map::Entry" in c.path:
-                    ok = b.qname == A.ENTRY + "::or_insert_with"
-                    why = "std Entry::or_insert_with (vacant-only insertion)"
-                    allowed_seen += 1 if ok else 0
+                # decided by what the operation can do, wherever it is written
+                if c.name in ("or_insert_with", "or_insert", "or_default") and "hash_map::Entry" in c.path:
+                    ok = True
+                    why = "std Entry::%s (vacant-only insertion)" % c.name
+                    allowed_seen += 1
                 elif c.name == "insert" and "VacantEntry" in c.path:
                     # the same insertion written as `match entry { Vacant(v) => v.insert(..), Occupied(o) => o.into_mut() }`
-                    ok = b.qname == A.ENTRY + "::or_insert_with"
+                    ok = True
                     why = "VacantEntry::insert (vacant-only insertion)"
-                    allowed_seen += 1 if ok else 0
-                elif c.name == "entry" and b.qname == A.WORLD + "::entry":
+                    allowed_seen += 1
+                elif c.name == "entry" and "HashMap" in c.path:
                     ok = True
-                    why = "HashMap::entry inside World::entry (no modification by itself)"
-                elif c.name == "borrow_mut" and b.qname == A.ENTRY + "::or_insert_with":
+                    why = "HashMap::entry (no modification by itself)"
+                elif c.name in ("borrow_mut", "try_borrow_mut") and not on_guard:
                     ok = True
-                    why = "borrow of the entry's cell to build the returned guard"
+                    why = "exclusive borrow of a cell (no modification by itself; writes through it are looked at where they happen)"
                 report.ob(rule, "%s->%s" % (b.qname, c.name), ok,
                           why if ok else "setup cone mutates the resource table through %s" % c.short(), site=b.loc(bb), config=config)
     report.ob(rule, "or_insert_with-reached", allowed_seen >= 1,
@@ -183,45 +184,51 @@ def noclobber(ctx, report, facts, config):
     report.floor(rule, "create-nothing setups", len(quiet), 5, config=config)
     for b in quiet:
         report.touched(b, config)
-        cs = [Callee(t["func"]).short() for _, t in b.normal_calls()]
+        ev, ends = Q.sem(ctx, facts, b)
+        cs = sorted(set(x[2].name for e in ends for x in Q.calls_in(e.path.events, lambda c: c.local or c.name not in Q.BENIGN_STD, deep=True)))
         report.ob(rule, "quiet/%s" % b.qname, not cs, "setup body makes no call" if not cs else "setup of an optional/expecting accessor calls %s" % cs,
                   site=b.loc(), config=config)
     # Read/Write::setup forward to the handler
     for head in (A.READ, A.WRITE):
         b = facts.one(name="setup", trait=A.T_SYSDATA, self_head=head)
         report.touched(b, config)
-        cs = [(bb, Callee(t["func"])) for bb, t in b.normal_calls()]
-        ok = len(cs) == 1 and cs[0][1].trait == A.T_SETUPHANDLER and cs[0][1].name == "setup" and cs[0][1].self_arg_s == "F"
+        ev, ends = Q.sem(ctx, facts, b)
+        ok, seen = Q.forwards_once(ev, ends, lambda c, x: c.trait == A.T_SETUPHANDLER and c.name == "setup" and ev.self_arg(x[4]) == "F")
         report.ob(rule, "handler/%s" % head.rsplit("::", 1)[1], ok,
-                  "setup forwards to <F as SetupHandler<T>>::setup" if ok else "setup calls %s" % [c.short() for _, c in cs],
+                  "setup forwards to <F as SetupHandler<T>>::setup" if ok else "setup does not forward exactly once to the handler: %s" % (seen,),
                   site=b.loc(), config=config)
 
 
 def setup_extra(ctx, report, facts, config):
     """Non-fanout setup obligations: batch declared data, defaults."""
     rule = "C13.FANOUT"
+    wsetup = F.inh(facts, A.WORLD, "setup")
     b = F.timpl(facts, A.T_SYSTEM, A.BCS, "setup")
-    cs = [(bb, Callee(t["func"])) for bb, t in b.normal_calls()]
-    ws = [(bb, c) for bb, c in cs if c.local and c.self_head == A.WORLD and c.name == "setup"]
-    ok = len(ws) == 1 and any("BatchSystemData" in a["s"] for a in ws[0][1].type_args())
+    ev, ends = Q.sem(ctx, facts, b, opaque=[wsetup.key])
+    n = []
+    for e in Q.returns(ends):
+        ws = Q.calls_in(e.path.events, lambda c: c.local and c.self_head == A.WORLD and c.name == "setup", deep=False)
+        inloop = [L for L in Q.all_loops([e]) if Q.loop_contains_call(L, lambda c: c.local and c.self_head == A.WORLD and c.name == "setup")]
+        n.append(len([x for x in ws if any("BatchSystemData" in a for a in (ev.targs(x[4]) or []))]) if not inloop and len(ws) == 1 else -1)
+    ok = bool(n) and all(k == 1 for k in n)
     report.ob(rule, "SETUP/<BatchControllerSystem as System>::setup/controller-data", ok,
-              "one World::setup::<C::BatchSystemData>() call" if ok else "controller's declared data is not set up exactly once: %s" % [c.short() for _, c in cs],
+              "one World::setup::<C::BatchSystemData>() call" if ok else "controller's declared data is not set up exactly once on every way: %s" % n,
               site=b.loc(), config=config)
     # System::setup default -> DynamicSystemData::setup(accessor, world)
     b = F.default_method(facts, A.T_SYSTEM, "setup")
-    cs = [(bb, Callee(t["func"])) for bb, t in b.normal_calls()]
-    ds = [c for _, c in cs if c.trait == A.T_DYNSYSDATA and c.name == "setup"]
-    report.ob(rule, "SETUP/System::setup(default)", len(ds) == 1, "default System::setup calls DynamicSystemData::setup %d time(s)" % len(ds),
+    ev, ends = Q.sem(ctx, facts, b)
+    n = [len(Q.calls_in(e.path.events, lambda c: c.trait == A.T_DYNSYSDATA and c.name == "setup", deep=True)) for e in Q.returns(ends)]
+    report.ob(rule, "SETUP/System::setup(default)", bool(n) and all(k == 1 for k in n), "default System::setup calls DynamicSystemData::setup %s time(s)" % n,
               site=b.loc(), config=config)
     b = blanket_dyn = facts.one(name="setup", trait=A.T_DYNSYSDATA, container="trait_impl", pred=lambda b: (b.self_head or "").startswith("param:"))
-    cs = [(bb, Callee(t["func"])) for bb, t in b.normal_calls()]
-    ds = [c for _, c in cs if c.trait == A.T_SYSDATA and c.name == "setup" and c.self_arg_s == "T"]
-    report.ob(rule, "SETUP/<T as DynamicSystemData>::setup", len(ds) == 1 and len(cs) == 1, "forwards to <T as SystemData>::setup %d time(s)" % len(ds),
+    ev, ends = Q.sem(ctx, facts, b)
+    ok, seen = Q.forwards_once(ev, ends, lambda c, x: c.trait == A.T_SYSDATA and c.name == "setup" and ev.self_arg(x[4]) == "T")
+    report.ob(rule, "SETUP/<T as DynamicSystemData>::setup", ok, "forwards to <T as SystemData>::setup: %s" % (seen,),
               site=b.loc(), config=config)
-    b = F.inh(facts, A.WORLD, "setup")
-    cs = [(bb, Callee(t["func"])) for bb, t in b.normal_calls()]
-    ds = [c for _, c in cs if c.trait == A.T_SYSDATA and c.name == "setup" and c.self_arg_s == "T"]
-    report.ob(rule, "SETUP/World::setup", len(ds) == 1 and len(cs) == 1, "forwards to <T as SystemData>::setup %d time(s)" % len(ds),
+    b = wsetup
+    ev, ends = Q.sem(ctx, facts, b)
+    ok, seen = Q.forwards_once(ev, ends, lambda c, x: c.trait == A.T_SYSDATA and c.name == "setup" and ev.self_arg(x[4]) == "T")
+    report.ob(rule, "SETUP/World::setup", ok, "forwards to <T as SystemData>::setup: %s" % (seen,),
               site=b.loc(), config=config)
 
 
